@@ -186,6 +186,18 @@ def check_declarative(case, r: R):
     # the element list is the user's document: it still describes the same circuit after it has been drawn once
     if lib_desc != before:
         r.fail('description-consumed', f'create_schematic changed the element list it was given: {_first_difference(before, lib_desc)}')
+    # the two halves of the statement meet: a drawing made from a declarative list is saved and loaded like any other
+    # (only when every entry is of a persistable kind: no lamps, labelled nodes or labelled wires)
+    if all(e['type'] not in ('lamp', 'node') and not (e['type'] == 'line' and 'name' in e) for e in desc['elements']):
+        from CircuitCalculator.SimpleCircuit import dump_load as sdl
+        r.cls('declarative-then-saved')
+        back = None
+        with r.lib('save-load[declarative drawing]'):
+            back = circuit_translator(sdl.deserialize(sdl.serialize(sch, 'json'), 'json'))
+        if back is not None:
+            c13.structural(prog, back, r, tag='[declarative drawing reloaded]')
+        if r.failures:
+            return
     if case.get('on_axes'):
         r.cls('drawn-onto-supplied-axes')
         onax = None
